@@ -1451,6 +1451,11 @@ class _Normalizer:
         if exp is None:
             return None
         gbody, _ret = exp
+        # a ``return`` in the generator ends the manager (after an exception was thrown in: it is swallowed) and execution
+        # goes on after the ``with``: in the spliced form that is falling out of the generator's statements
+        gbody = _eliminate_returns(gbody)
+        if gbody is None:
+            return None
         found = [0]
         body = st.body
         target = it.optional_vars
@@ -2325,6 +2330,14 @@ class _Normalizer:
     # ------------------------------------------------------------------ 2. conditional expressions
     def _desugar_function(self, fnode, cls, local):
         me = self
+        # statements under a ``try`` (or a ``with``, which may swallow): a failure in a later operand must leave the target as
+        # it was, because the handler / the code after it can see it
+        guarded = set()
+        for n_ in ast.walk(fnode):
+            if isinstance(n_, (ast.Try, ast.With)):
+                for sub in ast.walk(n_):
+                    if isinstance(sub, ast.stmt) and sub is not n_:
+                        guarded.add(id(sub))
 
         def split(st):
             v = getattr(st, 'value', None)
@@ -2354,13 +2367,18 @@ class _Normalizer:
                 pre = []
                 if isinstance(st, ast.Assign):
                     name = st.targets[0].id
+                    final = []
+                    if id(st) in guarded:
+                        me.counter += 1
+                        final = [ast.Assign(targets=[ast.Name(id=name, ctx=ast.Store())], value=ast.Name(id='__b%d' % me.counter, ctx=ast.Load()))]
+                        name = '__b%d' % me.counter
                     pre.append(ast.Assign(targets=[ast.Name(id=name, ctx=ast.Store())], value=first))
                     again = ast.Assign(targets=[ast.Name(id=name, ctx=ast.Store())], value=rest)
                     test = ast.Name(id=name, ctx=ast.Load())
                     if isinstance(v.op, ast.Or):
                         test = ast.UnaryOp(op=ast.Not(), operand=test)
                     node = ast.If(test=test, body=[again], orelse=[])
-                    out = pre + [node]
+                    out = pre + [node] + final
                 else:
                     if _is_simple(first):
                         held = first
@@ -2535,8 +2553,18 @@ class _Normalizer:
             return None
         if any(isinstance(x, ast.Starred) for x in call.args) or any(k.arg is None for k in call.keywords):
             return None
+        va = node.args.vararg
         if len(call.args) > len(params):
-            return None
+            # ``def f(a, *rest)``: the surplus positional arguments, as the tuple the parameter holds (read-only uses)
+            extra = call.args[len(params):]
+            if va is None or node.args.kwarg or node.args.kwonlyargs or not all(_is_simple_or_const(x) for x in extra) \
+                    or any(isinstance(n, ast.Name) and n.id == va.arg and isinstance(n.ctx, (ast.Store, ast.Del)) for n in ast.walk(node)):
+                return None
+            binding[va.arg] = ast.Tuple(elts=list(extra), ctx=ast.Load())
+        elif va is not None:
+            if node.args.kwarg or node.args.kwonlyargs:
+                return None
+            binding[va.arg] = ast.Tuple(elts=[], ctx=ast.Load())
         for p, x in zip(params, call.args):
             binding[p] = x
         for k in call.keywords:
@@ -2580,7 +2608,7 @@ class _Normalizer:
         subst: Dict[str, ast.expr] = {}
         rename: Dict[str, str] = {b: tag + b for b in bound}
         for p, x in binding.items():
-            simple = _is_simple(x) or _is_getter(x)
+            simple = _is_simple(x) or _is_getter(x) or (isinstance(x, ast.Tuple) and all(_is_simple_or_const(y) for y in x.elts))
             if p in bound or not (simple or uses.get(p, 0) <= 1 and len(body) == 1):
                 tmp = tag + p
                 asg = ast.Assign(targets=[ast.Name(id=tmp, ctx=ast.Store())], value=copy.deepcopy(x))
@@ -2969,4 +2997,66 @@ def _blocks(fnode):
             for c in getattr(st, 'cases', []) or []:
                 walk(c.body)
     walk(fnode.body)
+    return out
+
+
+def _eliminate_returns(stmts):
+    """the statement list with every ``return`` turned into falling off its end: the statements after an ``if`` one of whose arms
+    returns move into the arms that do not.  ``return`` inside a loop / ``with``, or in a ``try`` that is followed by further
+    statements, is not handled (None)."""
+    def has_return(nodes):
+        for st in nodes:
+            for n in ast.walk(st):
+                if isinstance(n, ast.Return):
+                    return True
+        return False
+
+    def elim(lst):
+        """-> (statements, ends: True when control never falls off the end of the list) or None"""
+        out = []
+        for i, st in enumerate(lst):
+            if isinstance(st, ast.Return):
+                return out, True
+            if isinstance(st, (ast.FunctionDef, ast.AsyncFunctionDef, ast.ClassDef)) or not has_return([st]):
+                out.append(st)
+                continue
+            rest = lst[i + 1:]
+            if isinstance(st, ast.If):
+                b = elim(st.body)
+                o = elim(st.orelse)
+                r = elim(rest)
+                if b is None or o is None or r is None:
+                    return None
+                nb = b[0] if b[1] else b[0] + copy.deepcopy(r[0])
+                no = o[0] if o[1] else o[0] + copy.deepcopy(r[0])
+                new = ast.If(test=st.test, body=nb or [ast.Pass()], orelse=no)
+                ast.copy_location(new, st)
+                out.append(new)
+                return out, (b[1] or r[1]) and (o[1] or r[1])
+            if isinstance(st, ast.Try) and not rest:
+                parts = []
+                for blk in [st.body, st.orelse] + [h.body for h in st.handlers]:
+                    e_ = elim(blk)
+                    if e_ is None:
+                        return None
+                    parts.append(e_[0] or [ast.Pass()])
+                if has_return(st.finalbody):
+                    return None
+                # (falling out of the body reaches ``else``; a return there skipped it: only bodies without else are simple)
+                if st.orelse and has_return(st.body):
+                    return None
+                new = ast.Try(body=parts[0], handlers=[ast.ExceptHandler(type=h.type, name=h.name, body=parts[2 + k])
+                                                       for k, h in enumerate(st.handlers)],
+                              orelse=parts[1] if st.orelse else [], finalbody=st.finalbody)
+                ast.copy_location(new, st)
+                out.append(new)
+                return out, False
+            return None
+        return out, False
+    r = elim(list(stmts))
+    if r is None:
+        return None
+    out = r[0] or [ast.Pass()]
+    for x in out:
+        ast.fix_missing_locations(x)
     return out
